@@ -9,15 +9,12 @@ package req
 import (
 	"context"
 	"crypto/tls"
-	"crypto/x509"
 	"fmt"
 	"net"
-	"net/http"
 	"net/url"
 	"os"
 	"os/exec"
 	"path/filepath"
-	"sort"
 	"strings"
 	"sync"
 	"sync/atomic"
@@ -1185,6 +1182,3 @@ func c12CrashChild() {
 	o.close()
 }
 
-var _ = sort.Strings
-var _ = x509.NewCertPool
-var _ http.Handler
